@@ -129,6 +129,27 @@ def directed_legacy_unused(cw, sb, rng):
         if m['type'] in off: m['enabled'] = False
     return ['directed:legacy_unused']
 
+def directed_all_empty(cw, sb, rng):
+    """regression for K7e: the deploy empties every remaining root (all manifests are rewritten empty) while an
+    earlier snapshot still lists files of a nested root that is switched off now; an interruption after the last
+    manifest write must not make the re-run fall back to that snapshot"""
+    cw.opts['write_agents_global'] = True
+    nested = [o for o in ('write_user_skills', 'write_user_prompts') if cw.opts[o]]
+    if nested:
+        cw.opts[rng.choice(nested)] = False
+    for m in cw.modules:
+        m['enabled'] = False
+    return ['directed:all_empty']
+
+def first_deploy_all_on(cw):
+    cw.opts = {k: True for k in cw.opts}
+    if not any(m['type'] == 'instructions' for m in cw.modules):
+        cw.modules.append({'id': 'instructions:base', 'type': 'instructions', 'dir': 'modules/instructions/base',
+                           'files': {'AGENTS.md': b'# rules\n'}, 'targets': [], 'enabled': True})
+    if not any(m['type'] == 'skill' for m in cw.modules):
+        cw.modules.append({'id': 'skill:s9', 'type': 'skill', 'dir': 'modules/skills/s9', 'files': {'SKILL.md': ds.skill_md('s9', 'one')}, 'targets': [], 'enabled': True})
+    if not any(m['type'] == 'prompt' for m in cw.modules): cw.add_prompt()
+
 def run_scenario(ctx, idx, kinds, max_points, cases, directed=None):
     rng = ctx.rng
     sb = Sandbox('c07'); sb.git_init_project()
@@ -136,6 +157,8 @@ def run_scenario(ctx, idx, kinds, max_points, cases, directed=None):
         cw = ds.CfgWorld(sb, rng)
         while not cw.desired(None):
             cw = ds.CfgWorld(sb, rng)
+        if directed is directed_all_empty:
+            first_deploy_all_on(cw)
         cw.write()
         base = sb.root
         sb.cli_json(['deploy', '--apply', '--yes', '--adopt'])
@@ -174,10 +197,7 @@ def run_scenario(ctx, idx, kinds, max_points, cases, directed=None):
         cands = [base + d['path'] for d in D] + [c['path'] for c in plan] + [base + r['root'] + '/' + ds.mf_name(r['target']) for r in R]
         offset, ctrace = canon_trace(sb, lines, cands)
         nlines = len(ctrace)
-        acc = ds.accepted_entries(before, R, ids)
-        msrc = None
-        if not acc:
-            msrc = lm or []      # no manifest entry usable anywhere: latest snapshot fallback
+        msrc = ds.snapshot_fallback(before, R, ids, lm)      # None: the manifests decide
         # which fault points to exercise
         points = list(range(nlines))
         if max_points and len(points) > max_points:
@@ -377,6 +397,8 @@ def run(ctx):
         run_scenario(ctx, i, kinds, 14 if quick else None, cases)
     for i in range(2 if quick else 6):
         run_scenario(ctx, 1000 + i, kinds, 14 if quick else None, cases, directed=directed_legacy_unused)
+    for i in range(2 if quick else 6):
+        run_scenario(ctx, 2000 + i, kinds, 20 if quick else None, cases, directed=directed_all_empty)
     for c in ctx.corr('crash', HEADER, 'check_crash', 'crash_case', cases, shard_chars=40000):
         ctx.violation('model and implementation disagree on the sequence of mutating operations / a crash-prefix disk', c, no_input=True)
     rcases = []
